@@ -58,8 +58,13 @@ ASSUMPTIONS = [
     'onecmd and Settings._parse_bool; primitives of Model/PrimsApi.v (trusted): str.strip/lower are the model\'s, '
     'cmd.Cmd.parseline is the model\'s cmd_parseline, getattr(self, "do_"+cmd, None) is a parameter, warnings.warn and '
     'self.error are calls that return (their effect is not part of the theorem), message texts are uninterpreted; '
-    'do_set (try/except ... as ex, print) and Settings.getstr/setstr (dataclass introspection) are outside the fragment: '
-    'covered by the correspondence only',
+    'do_set / Settings.getstr / setstr / _parse_format / BQLShell.parse are tied too (C19_source_do_set, _getstr, _setstr, '
+    '_parse_format, _run_default_close) under the rules R10-R16 of src_api.py: the shell\'s output is the list of (channel, text) '
+    'pairs its print(.., file=self.outfile) / self.error(..) statements append (self.$events); a Settings object is a value '
+    '(record of its fields: getattr/setattr/todict/type/repr/str are primitives of Model/PrimsShell.v, shlex.split is the '
+    'model\'s shlex_split); settings.getstr/setstr called from do_set have as primitive semantics what their own ties prove; '
+    'the text of str(ex) is uninterpreted; a parsed statement is a record of its class, from_clause and close; on_Select '
+    '(with-statement, keyword call of render) is outside the fragment: covered by the correspondence only',
 ]
 
 WORK = os.path.join(core.BUILD, 'c19')
